@@ -108,10 +108,9 @@ static void kmp_init(
     if (patlen == 0) {
         janet_panic("expected non-empty pattern");
     }
-    int32_t *lookup = janet_calloc(patlen, sizeof(int32_t));
-    if (!lookup) {
-        JANET_OUT_OF_MEMORY;
-    }
+    /* Scratch memory: the callers call back into Janet code (a substitution function) and into
+     * functions that can raise while the table is in use; the collector reclaims it then. */
+    int32_t *lookup = janet_scalloc(patlen, sizeof(int32_t));
     s->lookup = lookup;
     s->i = 0;
     s->j = 0;
@@ -131,7 +130,7 @@ static void kmp_init(
 }
 
 static void kmp_deinit(struct kmp_state *state) {
-    janet_free(state->lookup);
+    janet_sfree(state->lookup);
 }
 
 static void kmp_seti(struct kmp_state *state, int32_t i) {
@@ -431,20 +430,20 @@ JANET_CORE_FN(cfun_string_replaceall,
               "Will return the new string if `patt` is found, otherwise returns `str`.") {
     int32_t result;
     struct replace_state s;
-    JanetBuffer b;
     int32_t lastindex = 0;
     replacesetup(argc, argv, &s);
-    janet_buffer_init(&b, s.kmp.textlen);
+    /* A collected buffer, so that nothing is lost when the substitution function raises.
+     * (janet_call keeps the collector locked while that function runs.) */
+    JanetBuffer *b = janet_buffer(s.kmp.textlen);
     while ((result = kmp_next(&s.kmp)) >= 0) {
         JanetByteView subst = janet_text_substitution(&s.subst, s.kmp.text + result, s.kmp.patlen, NULL);
-        janet_buffer_push_bytes(&b, s.kmp.text + lastindex, result - lastindex);
-        janet_buffer_push_bytes(&b, subst.bytes, subst.len);
+        janet_buffer_push_bytes(b, s.kmp.text + lastindex, result - lastindex);
+        janet_buffer_push_bytes(b, subst.bytes, subst.len);
         lastindex = result + s.kmp.patlen;
         kmp_seti(&s.kmp, lastindex);
     }
-    janet_buffer_push_bytes(&b, s.kmp.text + lastindex, s.kmp.textlen - lastindex);
-    const uint8_t *ret = janet_string(b.data, b.count);
-    janet_buffer_deinit(&b);
+    janet_buffer_push_bytes(b, s.kmp.text + lastindex, s.kmp.textlen - lastindex);
+    const uint8_t *ret = janet_string(b->data, b->count);
     kmp_deinit(&s.kmp);
     return janet_wrap_string(ret);
 }
